@@ -21,9 +21,9 @@ FREE_TEXT = {'ID', 'NAMESPACE', 'TICKED_PHRASE', 'STRING', 'NUMBER', 'FRACTION'}
 
 def run(ctx):
     g = lexrules.grammar_of(ctx.repo, CLS)
-    lex_rule(ctx, g)
+    ctx.guard(lex_rule, ctx, g)
     sources = keyword_fields(ctx, g)
-    taint(ctx, g, sources)
+    ctx.guard(taint, ctx, g, sources)
     ctx.assume('identifiers that merely coincide with keywords (kw_as_identifier_*) are names, not keywords')
     return ('Keyword-carrying Node fields are computed from the grammar (production position whose symbol derives a '
             'keyword terminal -> constructor field); every read of such a field in the interpreter and prebuilder '
